@@ -28,6 +28,8 @@ class Tap:
         self.inexact = 0
         self.slack = 0  # bytes other participating streams may have in flight
         self.sys = {}
+        self.appends = {}
+        self.clients = []
 
     def ticks(self, x):
         v = x * TICK
@@ -56,7 +58,12 @@ class Tap:
         ow, oa, ol, sw, sa = self.saved
         ids = {}
 
+        keep = []
+
         def sid(stream):
+            # (the stream is kept alive: CPython re-uses the id of a collected object, which would make two streams one)
+            if id(stream) not in ids:
+                keep.append(stream)
             return ids.setdefault(id(stream), len(ids) + 1)
 
         async def swait(self_, name):
@@ -79,6 +86,12 @@ class Tap:
                     a["t1"] = max(a["t1"], common._now())
                     if TICK / lim != a["tpb"]:
                         a["mixed"] = True
+                    # ... and the same per owner of the limit, append by append (server-side levels: the level itself;
+                    # the client's level: the client the stream belongs to)
+                    owner = "srv"
+                    if key == "_":
+                        owner = next((i for i, c in enumerate(tap.clients) if c.stream is self_ or getattr(self_, "client", None) is c), -1)
+                    tap.appends.setdefault((key, name, owner), []).append((start, common._now(), len(data), TICK / lim))
             tok = CUR_STREAM.set(sid(self_))
             try:
                 return sa(self_, name, data, start)
@@ -113,6 +126,28 @@ class Tap:
 
     def remove(self):
         Throttle.wait, Throttle.append, Throttle.limit, ThrottleStreamIO.wait, ThrottleStreamIO.append = self.saved
+
+    def append_bounds(self, reset=10):
+        """For every limited I/O: what had been accounted under that limit (by any stream, on any Throttle object) when the I/O
+        began fits into the time since the first one began - apart from what other streams had in flight at that moment, the
+        first unit, and one byte of rounding per accounting window."""
+        out = []
+        for (key, name, owner), evs in sorted(self.appends.items(), key=repr):
+            # (only where the streams under the limit act one after the other - a client's control and data connections: a wait
+            #  that several streams sit in at once ends by the accounting at its *entry*, which Throttle.tla models and this sum does not)
+            if key != "_" or owner == -1 or len({e[3] for e in evs}) != 1:
+                continue
+            tpb = evs[0][3]
+            if abs(tpb - round(tpb)) > 1e-9:
+                continue
+            t0 = evs[0][0]
+            for i, (ts, t, n, _) in enumerate(evs):
+                # (what was accounted at the very instant this I/O began may stem from streams let through together with it)
+                prior = sum(e[2] for e in evs[:i] if e[1] < ts)
+                conc = sum(e[2] for e in evs[:i] if e[1] >= ts)
+                out.append({"level": "%s:%s:%s@%d" % (key, name, owner, i), "tpb": int(round(tpb)), "bytes": prior, "streams": 1,
+                            "block": evs[0][2] + conc + int((ts - t0) // reset) + 1, "dur": self.ticks(ts - t0)})
+        return out
 
     def export(self):
         out = []
@@ -270,9 +305,13 @@ def e2e_run(seed):
                 await asyncio.sleep(0)
             churned.set()
 
+        multi = rng.random() < 0.35   # several transfers one after the other on each client (a data connection each)
+        nx = rng.choice([2, 3, 4]) if multi else 1
+
         def mk(i):
             async def sc(factory, w):
                 c = factory(**ckw)
+                tap.clients.append(c)
                 if churn and i > 0:
                     await churned.wait()
                 await c.connect("127.0.0.1", W.CTL_PORT)
@@ -280,14 +319,15 @@ def e2e_run(seed):
                 if churn and i == 0:
                     first_in.set()
                     await churned.wait()
-                if direction == "up":
-                    async with c.upload_stream("up%d" % i) as st:
-                        for k in range(0, size, 8):
-                            await st.write(bytes([7] * min(8, size - k)))
-                else:
-                    async with c.download_stream("f") as st:
-                        while await st.read(8):
-                            pass
+                for x in range(nx):
+                    if direction == "up":
+                        async with c.upload_stream("up%d_%d" % (i, x)) as st:
+                            for k in range(0, size, 8):
+                                await st.write(bytes([7] * min(8, size - k)))
+                    else:
+                        async with c.download_stream("f") as st:
+                            while await st.read(8):
+                                pass
                 t_end[i] = common._now()
                 await c.quit()
             return sc
@@ -302,7 +342,7 @@ def e2e_run(seed):
         for lv in LEVELS:
             if on[lv]:
                 shared = lv in ("server", "user")
-                bounds.append({"level": lv, "tpb": TICK // on[lv], "bytes": size * (nclients if shared else 1),
+                bounds.append({"level": lv, "tpb": TICK // on[lv], "bytes": size * nx * (nclients if shared else 1),
                                "streams": (nclients if shared else 1), "block": 8, "dur": int(round(dur * TICK))})
         # the same bound from the limiter's point of view: all bytes (commands and replies included) that any stream moved under
         # a shared level, however the streams were attached to Throttle objects
@@ -310,8 +350,9 @@ def e2e_run(seed):
             if key in ("server_global", "user_global") and not a.get("mixed"):
                 bounds.append({"level": key + ":" + name, "tpb": int(a["tpb"]), "bytes": a["bytes"], "streams": 1, "block": sum(a["units"].values()),
                                "dur": tap.ticks(a["t1"] - a["t0"])})
+        bounds += tap.append_bounds()
         info = {"limits": on, "direction": direction, "clients": nclients, "size": size, "duration": dur, "churn": churn_how if churn else "",
-                "any_limit": any(on.values()), "bounds": bounds}
+                "transfers_each": nx, "any_limit": any(on.values()), "bounds": bounds}
         return tap.export(), tap.inexact, info
     finally:
         tap.remove()
